@@ -1012,12 +1012,16 @@ _dispatch_sync_complete_recurse(dispatch_queue_t dq, dispatch_queue_t stop_dq,
 	bool barrier = (dc_flags & DC_FLAG_BARRIER);
 	do {
 		if (dq == stop_dq) return;
+		// the queue that was locked below `dq` is its target queue for as long
+		// as `dq` is owned: once `dq` is completed, a pending
+		// dispatch_set_target_queue() can change it
+		dispatch_queue_t tq = dq->do_targetq;
 		if (barrier) {
 			dx_wakeup(dq, 0, DISPATCH_WAKEUP_BARRIER_COMPLETE);
 		} else {
 			_dispatch_lane_non_barrier_complete(upcast(dq)._dl, 0);
 		}
-		dq = dq->do_targetq;
+		dq = tq;
 		barrier = (dq->dq_width == 1);
 	} while (unlikely(dq->do_targetq));
 }
